@@ -30,8 +30,12 @@ pub fn instance_for(ctx: &Ctx, idx: u64) -> (Value, String, String) {
         "C07" => *rng.pick(&[Profile::Limits, Profile::Limits, Profile::Mixed, Profile::Maint, Profile::Depots, Profile::Ties]),
         _ => PROFILES[(idx % PROFILES.len() as u64) as usize],
     };
-    let max_dep = if ctx.thorough() && idx % 7 == 0 {
+    let max_dep = if ctx.thorough() && idx % 31 == 0 {
+        45
+    } else if ctx.thorough() && idx % 7 == 0 {
         30
+    } else if idx % 50 == 17 {
+        24
     } else if idx % 3 == 0 {
         12
     } else {
